@@ -121,6 +121,79 @@ def gen_mtm(rng):
     elif k < 0.36: data += bytes(rng.randrange(256) for _ in range(rng.choice((1, 7))))
     return data
 
+def gen_s3m(rng):
+    """a Scream Tracker 3 file with hostile fields: parapointers that are 0, point past the end or into the header, packed pattern
+    lengths that disagree with the data, patterns cut inside an entry, instrument types 0 / 1 / Adlib with right and wrong magics,
+    sample lengths, loop points above 2^31, stereo / 16-bit / ADPCM flags, channel settings with holes, default pans"""
+    insnum = rng.choice((0, 1, 2, 3, 6)); patnum = rng.choice((1, 1, 2, 3, 2, 1, 3, 4, 0)); ordnum = rng.choice((1, 2, 4, 7, 16, 3, 9, 12, 33, 0, 255))
+    if rng.random() < 0.03: insnum = rng.choice((256, 1000))
+    chset = [rng.choice((0, 1, 8, 9, 16, 17, 0x80 | rng.randrange(32), rng.randrange(32))) if rng.random() < 0.5 else 255 for _ in range(32)]
+    if rng.random() < 0.8: chset[0] = rng.randrange(16)
+    if rng.random() < 0.05: chset = [255] * 32
+    ffi = rng.choice((1, 2, 2, 2)) if rng.random() < 0.96 else rng.choice((0, 3, 258))
+    mv = rng.choice((0x30, 0xb0, 0x02, 0x12, 0x90, 0x10, 0, 5, 0x85, rng.randrange(256))); dp = rng.choice((0xfc, 0xfc, 0, 0xfd))
+    orders = [rng.choice((0, 0, max(0, patnum - 1), max(0, patnum - 1), patnum, 254, 255, rng.randrange(0, patnum + 2))) for _ in range(ordnum)]
+    hdr = bytearray(96)
+    hdr[0:28] = bytes(rng.randrange(32, 127) for _ in range(28)); hdr[28] = 0x1a; hdr[29] = 0x10 if rng.random() < 0.97 else 0x11
+    struct.pack_into("<HHHHHH", hdr, 32, ordnum, insnum & 0xffff, patnum, rng.choice((0, 0x10, 0x40, 0x50)), rng.choice((0x1320, 0x1300, 0x3214, 0x5130, 0x2013)), ffi)
+    hdr[44:48] = b"SCRM" if rng.random() < 0.97 else b"SCRN"
+    hdr[48] = rng.randrange(65); hdr[49] = rng.choice((6, 0, 1, 255, rng.randrange(256))); hdr[50] = rng.choice((125, 0, 31, 32, 255, rng.randrange(256))); hdr[51] = mv; hdr[53] = dp
+    hdr[64:96] = bytes(chset)
+    nins = min(insnum, 300)
+    tables_len = ordnum + 2 * nins + 2 * patnum + (32 if dp == 0xfc else 0)
+    base = (96 + tables_len + 15) // 16 * 16
+    body = bytearray(); pp_ins = []; pp_pat = []
+    def para(): return (base + len(body)) // 16
+    def pad():
+        while len(body) % 16: body.append(0)
+    smp_fix = []
+    for _ in range(nins):
+        pad(); k = rng.random()
+        if k < 0.04: pp_ins.append(rng.choice((0, 0xffff, 2, 6))); continue
+        pp_ins.append(para())
+        ih = bytearray(80); ty = rng.choice((1, 1, 1, 0, 2, 3, 7))
+        ih[0] = ty
+        ln = rng.choice((0, 1, 2, 16, 33, 300, rng.randrange(0, 1500)))
+        if rng.random() < 0.04: ln = rng.choice((0x10000000, 0x10000001, 0xffffffff))
+        lb = rng.choice((0, 1, ln // 2, ln, ln + 1, 0x80000000, 0xffffffff, rng.randrange(0, max(1, ln + 3))))
+        le = rng.choice((0, 1, ln, ln + 1, ln // 2, 0x80000001, 0xffffffff, rng.randrange(0, max(1, ln + 3))))
+        struct.pack_into("<III", ih, 16, ln & 0xffffffff, lb & 0xffffffff, le & 0xffffffff)
+        ih[28] = rng.randrange(65); ih[30] = rng.choice((0, 0, 0, 4, 1)); ih[31] = rng.choice((0, 1, 2, 4, 5, 7, 3, 255))
+        struct.pack_into("<H", ih, 32, rng.choice((8363, 0, 65535, 22050)))
+        ih[48:76] = bytes(rng.randrange(32, 127) for _ in range(28))
+        ih[76:80] = (b"SCRI" if ty >= 2 else b"SCRS") if rng.random() < 0.96 else b"SCRX"
+        smp_fix.append((len(body), ln)); body += ih
+    for _ in range(patnum):
+        pad(); k = rng.random()
+        if k < 0.08: pp_pat.append(rng.choice((0, 0, 0, 0xffff, 3))); continue
+        pp_pat.append(para())
+        pk = bytearray()
+        for r in range(rng.choice((64, 64, 64, 64, 64, 64, 64, 64, 10, 70))):
+            for _ in range(rng.choice((0, 0, 1, 2, 5))):
+                b = rng.randrange(32) | rng.choice((0x20, 0x40, 0x80, 0xe0, 0x60, 0xa0, 0xc0))
+                pk.append(b)
+                if b & 0x20: pk += bytes((rng.choice((255, 254, rng.randrange(0x80))), rng.randrange(100)))
+                if b & 0x40: pk.append(rng.randrange(65))
+                if b & 0x80: pk += bytes((rng.randrange(28), rng.randrange(256)))
+            pk.append(0)
+        plen = len(pk) + 2
+        if rng.random() < 0.08: plen = rng.choice((0, 1, 2, 3, plen // 2, plen + 50, 0xffff))
+        if rng.random() < 0.04: pk = pk[:rng.randrange(0, len(pk) + 1)]
+        body += struct.pack("<H", plen) + pk
+    # sample data, and the segment pointers of the instrument headers
+    for (off, ln) in smp_fix:
+        pad(); seg = para(); k = rng.random()
+        if k < 0.1: seg = rng.choice((0, 0xffffff, 5, seg + 1000))
+        body[off + 13] = (seg >> 16) & 255; struct.pack_into("<H", body, off + 14, seg & 0xffff)
+        if k >= 0.1: body += bytes(rng.randrange(256) for _ in range(min(ln, 4000) * rng.choice((1, 1, 2, 4))))
+    tables = bytes(orders) + b"".join(struct.pack("<H", x) for x in pp_ins) + b"".join(struct.pack("<H", x) for x in pp_pat)
+    if dp == 0xfc: tables += bytes(rng.choice((0, 0x20 | rng.randrange(16), rng.randrange(256))) for _ in range(32))
+    data = bytes(hdr) + tables + bytes(base - 96 - len(tables)) + bytes(body)
+    k = rng.random()
+    if k < 0.12: data = data[:rng.randrange(60, len(data))]
+    elif k < 0.16: data += bytes(rng.randrange(256) for _ in range(rng.choice((1, 7))))
+    return data
+
 def compare_loader(ck, engine, what, blobs, mdir, ext, want_types, mk_req, gdrv, mmodel):
     """files that the library attributes to one loader: the extracted loader model piped through the extracted gate against the PREGATE dump of hook H1"""
     paths = []
@@ -471,6 +544,26 @@ def main():
                     blobs.append(("generated MTM #%d" % k, gen_mtm(rng)))
             compare_loader(ck, "mtmload", "Model/MtmLoad.v (mtm_raw)", blobs, mdir, "mtm", (b"Multitracker".hex(),),
                            lambda ty, blob: "T %s" % blob.hex(), gdrv, mmodel)
+        finally:
+            shutil.rmtree(mdir, ignore_errors=True)
+    # ---- (g) the Scream Tracker 3 loader: Model/S3MLoad.v against the PREGATE dump of hook H1
+    if not replay or json.load(open(replay)).get("engine") == "s3mload":
+        gdrv = V.build_driver("c03_drv", ["c03_drv.c"]); mmodel = V.ocaml_build("modload")
+        mdir = tempfile.mkdtemp(prefix="vp-c03s-", dir="/var/tmp")
+        try:
+            if replay:
+                rpj = json.load(open(replay)); blobs = [(rpj["label"], bytes.fromhex(rpj["file_hex"]))]
+            else:
+                blobs = []
+                for f in V.corpus_files():
+                    if f.lower().endswith(".s3m") and os.path.getsize(f) < 40000:
+                        data = open(f, "rb").read(); lab = os.path.relpath(f, V.REPO); blobs.append((lab, data))
+                        for cut in (95, 96, 97, len(data) - 1, len(data) // 2, len(data) // 3): blobs.append(("%s cut at %d" % (lab, cut), data[:cut]))
+                blobs = blobs[: (140 if tier == "quick" else 4000)]
+                for k in range(400 if tier == "quick" else 20000):
+                    blobs.append(("generated S3M #%d" % k, gen_s3m(rng)))
+            compare_loader(ck, "s3mload", "Model/S3MLoad.v (s3m_raw)", blobs, mdir, "s3m", (b"Scream Tracker 3".hex(),),
+                           lambda ty, blob: "S %s" % blob.hex(), gdrv, mmodel)
         finally:
             shutil.rmtree(mdir, ignore_errors=True)
     ck.cov["rule"] = ("every file of test-dev/data, data/m and openmpt/* loaded by path and (with XMP_SMPCTL_SKIP) through a random stream entry point; core-format modules under all 11 player modes; "
